@@ -204,6 +204,11 @@ func init() {
 		},
 		Items: func(tier string) []Item {
 			items := coreItems(tier, c12Scenario, func(a *Alpha) { a.WithPost = true; a.Lite = true }, []int{0, 1}, 2) // no k=3 triples: the PostTransform dimension already multiplies every unit by 6
+			// the same units with the custom test of Int nodes filing its issue through the deprecated Ctx.NewError
+			for _, it := range coreItemsFiltered(tier, c12Scenario, func(a *Alpha) { a.WithPost = true; a.Lite = true; a.OldIface = true }, []int{0, 1}, 1, nil) {
+				it.Name = "old-interface/" + it.Name
+				items = append(items, it)
+			}
 			items = append(items, c12ExtraItems()...)
 			// callbacks get the value of their own node also when the schema object met another destination type before
 			items = append(items, layoutItems(tier, "C12", "panic", "issues", "issues-missing", "destination", "callbacks")...)
